@@ -8,5 +8,7 @@ void c05_ins_uint(ResponseStream* s, const unsigned* v) { *s << *v; }
 void c05_ins_short(ResponseStream* s, const int16_t* v) { *s << *v; }
 void c05_ins_long(ResponseStream* s, const int64_t* v) { *s << *v; }
 void c05_ins_cstr(ResponseStream* s, const char* const* v) { *s << *v; }
+void c05_ins_bool(ResponseStream* s, const bool* v) { *s << *v; }
+void c05_ins_arr(ResponseStream* s, const char (*v)[4]) { *s << *v; }
 void c05_ins_u8(ResponseStream* s, const uint8_t* v) { *s << *v; }
 }
